@@ -886,7 +886,57 @@ func (it *Interp) execRange(x *ast.RangeStmt, env *Env) ctrl {
 			}
 		}
 	case *MapV:
-		it.fail(x, "range over a map: iteration order is not deterministic")
+		// the order of a map iteration is not fixed; whether the result may depend on it is C09's question
+		// (R-determinism: a range over a map must be of the collect-then-sort form). Here the keys are
+		// visited in ascending order.
+		if c == nil {
+			return cNone
+		}
+		keys := make([]any, 0, len(c.m))
+		for k := range c.m {
+			keys = append(keys, k)
+		}
+		sort.Slice(keys, func(i, j int) bool {
+			switch a := keys[i].(type) {
+			case string:
+				if b, ok := keys[j].(string); ok {
+					return a < b
+				}
+			case int64:
+				if b, ok := keys[j].(int64); ok {
+					return a < b
+				}
+			}
+			return fmt.Sprint(keys[i]) < fmt.Sprint(keys[j])
+		})
+		for _, k := range keys {
+			v, still := c.m[k]
+			if !still {
+				continue
+			}
+			var kv Value
+			switch kk := k.(type) {
+			case string:
+				kv = kk
+			case int64:
+				kv = kk
+			case bool:
+				kv = kk
+			case Value:
+				kv = kk
+			default:
+				it.fail(x, "range over a map with keys the evaluation does not model")
+			}
+			cc := body(kv, v)
+			if cc == cReturn {
+				return cReturn
+			}
+			if act := it.loopCtl(cc, my); act == 1 {
+				return cNone
+			} else if act == 2 {
+				return cc
+			}
+		}
 	case Nil:
 		// a nil slice, map or function-less iterator: no iteration
 		if tv, ok := it.info.Types[x.X]; ok {
@@ -1039,7 +1089,9 @@ func (it *Interp) eval(e ast.Expr, env *Env) Value {
 				// a table of the package itself (composite literals of plain data): its initialiser is
 				// evaluated once, on first use; anything the interpreter cannot evaluate stays opaque
 				if init, ok := it.inits[o]; ok && !it.initing[o] {
-					if _, isLit := ast.Unparen(init).(*ast.CompositeLit); isLit {
+					_, isLit := ast.Unparen(init).(*ast.CompositeLit)
+					_, isCall := ast.Unparen(init).(*ast.CallExpr) // a value built by a constructor: strings.NewReplacer(…), newTable(…)
+					if isLit || isCall {
 						it.initing[o] = true
 						var val Value
 						func() {
@@ -1141,6 +1193,10 @@ func (it *Interp) eval(e ast.Expr, env *Env) Value {
 			n := int64(lenOf(b))
 			if hi < 0 {
 				hi = n
+			}
+			if b != nil && hi > n && hi <= int64(cap(b.elems)) && lo >= 0 && lo <= hi {
+				// within the capacity a library call reserved (slices.Grow): the new slots are unset
+				return &SliceV{b.elems[lo:hi:cap(b.elems)]}
 			}
 			if lo < 0 || hi > n || lo > hi {
 				it.panics(e, "slice bounds [%d:%d] out of range (len %d)", lo, hi, n)
